@@ -513,13 +513,19 @@ fn material_block(rng: &mut Rng, name: &str) -> ABlock {
 pub fn gen_schedule_blocks(rng: &mut Rng, n_year: usize) -> (Vec<ABlock>, Vec<String>) {
     let mut out = vec![];
     let nd = 2 + rng.usize(4);
-    let days: Vec<String> = (0..nd).map(|i| format!("D{}_{}", i, rng.below(10_000))).collect();
+    let mut days: Vec<String> = (0..nd).map(|i| format!("D{}_{}", i, rng.below(10_000))).collect();
+    if rng.chance(0.15) {
+        days[0] = "D".to_string();
+    }
     for d in &days {
         let vals: Vec<f32> = if rng.chance(0.3) { vec![rng.dec(0.0, 1.0, 2) as f32] } else { (0..24).map(|_| if rng.chance(0.4) { 0.0 } else { rng.dec(0.0, 1.0, 2) as f32 }).collect() };
         out.push(ABlock::new(d, "DAY-SCHEDULE-PD").w("TYPE", "FRACTION").nums("VALUES", vals));
     }
     let nw = 1 + rng.usize(3);
-    let weeks: Vec<String> = (0..nw).map(|i| format!("W{}_{}", i, rng.below(10_000))).collect();
+    let mut weeks: Vec<String> = (0..nw).map(|i| format!("W{}_{}", i, rng.below(10_000))).collect();
+    if rng.chance(0.15) {
+        weeks[0] = "W".to_string();
+    }
     for w in &weeks {
         let ds: Vec<String> = if rng.chance(0.3) { vec![days[rng.usize(nd)].clone()] } else { (0..7).map(|_| days[rng.usize(nd.min(3))].clone()).collect() };
         out.push(ABlock::new(w, "WEEK-SCHEDULE-PD").w("TYPE", "FRACTION").strs("DAY-SCHEDULES", ds));
@@ -579,7 +585,12 @@ impl BuildCfg {
 pub fn gen_building(rng: &mut Rng, cfg: &BuildCfg) -> ABuilding {
     // data base
     let nm = 3 + rng.usize(5);
-    let mat_names: Vec<String> = (0..nm).map(|i| db_name(rng, &format!("M{}", i))).collect();
+    let mut mat_names: Vec<String> = (0..nm).map(|i| db_name(rng, &format!("M{}", i))).collect();
+    // names may be as short as one character
+    if rng.chance(0.15) {
+        let k = rng.usize(nm);
+        mat_names[k] = ["M", "A", "x", "Ñ"][rng.usize(4)].to_string(); // (not a digit: values are typed by content, a quoted 7 is the number 7)
+    }
     let materials: Vec<ABlock> = mat_names.iter().map(|n| material_block(rng, n)).collect();
     let nl = 2 + rng.usize(4);
     let layer_names: Vec<String> = (0..nl).map(|i| db_name(rng, &format!("C{}", i))).collect();
@@ -790,7 +801,7 @@ pub fn gen_building(rng: &mut Rng, cfg: &BuildCfg) -> ABuilding {
     if cfg.shades {
         for i in 0..rng.usize(4) {
             if rng.chance(0.5) {
-                shades.push(AShade::Rect { name: format!("Sombra{:03}", i), x: rng.dec(-20.0, 20.0, 2) as f32, y: rng.dec(-20.0, 20.0, 2) as f32, z: rng.dec(0.0, 6.0, 2) as f32, w: rng.dec(1.0, 10.0, 2) as f32, h: rng.dec(1.0, 10.0, 2) as f32, azimuth: *rng.pick(&[0.0f32, 90.0, 180.0, 270.0, 33.0]), tilt: *rng.pick(&[90.0f32, 90.0, 0.0, 45.0]) });
+                shades.push(AShade::Rect { name: format!("Sombra{:03}", i), x: rng.dec(-20.0, 20.0, 2) as f32, y: rng.dec(-20.0, 20.0, 2) as f32, z: rng.dec(0.0, 6.0, 2) as f32, w: rng.dec(1.0, 10.0, 2) as f32, h: rng.dec(1.0, 10.0, 2) as f32, azimuth: *rng.pick(&[0.0f32, 90.0, 180.0, 270.0, 33.0]), tilt: *rng.pick(&[90.0f32, 90.0, 0.0, 45.0, 180.0, 135.0]) });
             } else {
                 // a planar quad given by its vertices
                 let (x, y, z0) = (rng.dec(-20.0, 20.0, 2), rng.dec(-20.0, 20.0, 2), rng.dec(0.0, 6.0, 2));
